@@ -263,8 +263,12 @@ func (c *Ctx) havocLoop(s *State, header *ssa.BasicBlock) {
 			fr.locals[phi.Comment] = nv
 		}
 	}
-	for _, h := range c.eng.loopMods(c, s, header) {
+	m := c.eng.loopMods(c, s, header)
+	for _, h := range m.Whole {
 		c.havocHeap(s, h)
+	}
+	for _, a := range m.At {
+		c.havocAt(s, a.Heap, a.Base)
 	}
 	// ghost visited-sets of map ranges iterated in this loop
 	for r := range fr.rangeVisited {
@@ -684,6 +688,32 @@ func (c *Ctx) specialCall(s *State, in ssa.Instruction, name string, cc *ssa.Cal
 		}
 		c.doUnlock(s, in, key, base, pos)
 		return true
+	case "time.Now":
+		if res != nil {
+			c.setVal(s, res, Sc{T: c.clockRead(s, pos)})
+		}
+		return true
+	case "time.Since":
+		now := c.clockRead(s, pos)
+		if res != nil {
+			c.setVal(s, res, Sc{T: Sub(now, args[0].(Sc).T)})
+		}
+		return true
+	case "time.(Time).Add":
+		c.setVal(s, res, Sc{T: Add(args[0].(Sc).T, args[1].(Sc).T)})
+		return true
+	case "time.(Time).Sub":
+		c.setVal(s, res, Sc{T: Sub(args[0].(Sc).T, args[1].(Sc).T)})
+		return true
+	case "time.(Time).After":
+		c.setVal(s, res, Sc{T: Gt(args[0].(Sc).T, args[1].(Sc).T)})
+		return true
+	case "time.(Time).Before":
+		c.setVal(s, res, Sc{T: Lt(args[0].(Sc).T, args[1].(Sc).T)})
+		return true
+	case "time.(Time).IsZero":
+		c.setVal(s, res, Sc{T: Eq(args[0].(Sc).T, IntLit(0))})
+		return true
 	case "sync.(*WaitGroup).Add", "sync.(*WaitGroup).Done", "sync.(*WaitGroup).Wait":
 		s.seq++
 		s.trace = append(s.trace, Event{Name: "wg." + name[strings.LastIndex(name, ".")+1:], Args: args, PC: len(s.pc), Pos: pos, Seq: s.seq})
@@ -988,5 +1018,17 @@ func (c *Ctx) checkGuardNamed(s *State, in ssa.Instruction, gf guardedField, bas
 
 // isFreshLocal: the object was allocated on this path by the function under verification.
 func (c *Ctx) isFreshLocal(s *State, base Term) bool {
-	return strings.HasPrefix(base.S, "alloc|") || strings.HasPrefix(base.S, "|alloc|")
+	return strings.HasPrefix(base.S, "alloc!") || strings.HasPrefix(base.S, "|alloc!")
+}
+
+// clockRead models a read of the wall clock: a value not smaller than any earlier read
+// (ghost variable Clock), strictly after the zero Time.
+func (c *Ctx) clockRead(s *State, pos string) Term {
+	cur := c.getHeap(s, "Clock", SInt)
+	t := c.freshConst("now", SInt)
+	s.assume(And(Ge(t, cur), Gt(t, IntLit(0))))
+	c.setHeap(s, "Clock", t)
+	s.seq++
+	s.trace = append(s.trace, Event{Name: "clock", Res: Sc{T: t}, PC: len(s.pc), Pos: pos, Seq: s.seq})
+	return t
 }
